@@ -598,3 +598,176 @@ Lemma zero_id_accepts_undecodable (H : bytes -> id) (zdecomp : bytes -> option b
   storage_data zdecomp unc b = None ->
   new_chunk_from_storage H zdecomp zero_id b unc false = GetOk b.
 Proof. intros E. unfold new_chunk_from_storage, storage_sum. rewrite E. reflexivity. Qed.
+
+(* ---------- S3Store.Prune ---------- *)
+
+Lemma in_remove_key k l x : In x (remove_key k l) <-> In x l /\ x <> k.
+Proof.
+  induction l as [|y l IH]; cbn [remove_key In]; [tauto|].
+  destruct (bytes_eqb y k) eqn:E.
+  - apply bytes_eqb_eq in E. subst y. rewrite IH. split; [tauto|]. intros [[->|I] N]; [congruence|tauto].
+  - apply bytes_eqb_neq in E. cbn [In]. rewrite IH. split; [|tauto]. intros [->|[I N]]; [split; [now left|exact E]|tauto].
+Qed.
+
+Section S3Proofs.
+  Variable prefix : bytes.
+  Variable unc : bool.
+  Variable keep : id -> bool.
+
+  (* the keys Prune deletes because of the listed key k *)
+  Definition s3_victim (k x : bytes) : Prop :=
+    exists i, s3_id_from_name prefix unc k = Some i /\ keep i = false /\ x = s3_name prefix unc i.
+
+  Lemma s3_prune_loop_spec listed : forall bucket x,
+    In x (s3_prune_loop prefix unc keep listed bucket) <->
+    In x bucket /\ ~ exists k, In k listed /\ s3_victim k x.
+  Proof.
+    induction listed as [|k r IH]; intros bucket x; cbn [s3_prune_loop].
+    - split; [intros I; split; [exact I|intros (k & [] & _)]|tauto].
+    - destruct (s3_id_from_name prefix unc k) as [i|] eqn:F.
+      + destruct (keep i) eqn:K.
+        * rewrite IH. split; intros [I N]; (split; [exact I|]); intros (k0 & I0 & V); apply N.
+          -- destruct I0 as [<-|I0]; [|exists k0; tauto].
+             destruct V as (j & Fj & Kj & _). congruence.
+          -- exists k0. split; [now right|exact V].
+        * rewrite IH, in_remove_key. split.
+          -- intros [[I Nx] N]. split; [exact I|]. intros (k0 & [<-|I0] & V).
+             ++ destruct V as (j & Fj & _ & ->). congruence.
+             ++ apply N. now exists k0.
+          -- intros [I N]. split; [split; [exact I|]|].
+             ++ intros ->. apply N. exists k. split; [now left|]. now exists i.
+             ++ intros (k0 & I0 & V). apply N. exists k0. split; [now right|exact V].
+      + rewrite IH. split; intros [I N]; (split; [exact I|]); intros (k0 & I0 & V); apply N.
+        * destruct I0 as [<-|I0]; [|exists k0; tauto]. destruct V as (j & Fj & _). congruence.
+        * exists k0. split; [now right|exact V].
+  Qed.
+
+  (* s3 prune_safe *)
+  Lemma s3_prune_safe bucket x :
+    (In x (s3_prune prefix unc keep bucket) -> In x bucket) /\
+    (In x bucket -> In x (s3_prune prefix unc keep bucket) \/
+                    exists i, wf_id i /\ keep i = false /\ x = s3_name prefix unc i).
+  Proof.
+    unfold s3_prune. split.
+    - intros I. now apply s3_prune_loop_spec in I.
+    - intros I. destruct (in_dec (list_eq_dec N.eq_dec) x (s3_prune_loop prefix unc keep (filter (fun k => has_prefix k prefix) bucket) bucket)) as [Y|N];
+        [now left|right].
+      rewrite s3_prune_loop_spec in N.
+      (* classical-free: decide the existence over the finite list *)
+      assert (D : forall l, (exists k, In k l /\ s3_victim k x) \/ ~ (exists k, In k l /\ s3_victim k x)).
+      { induction l as [|k l IHl]; [right; intros (k & [] & _)|].
+        destruct IHl as [(k0 & I0 & V)|Nn]; [left; exists k0; split; [now right|exact V]|].
+        destruct (s3_id_from_name prefix unc k) as [i|] eqn:F.
+        - destruct (keep i) eqn:K.
+          + right. intros (k0 & [<-|I0] & V); [destruct V as (j & Fj & Kj & _); congruence|apply Nn; now exists k0].
+          + destruct (list_eq_dec N.eq_dec x (s3_name prefix unc i)) as [->|Ne].
+            * left. exists k. split; [now left|]. now exists i.
+            * right. intros (k0 & [<-|I0] & V); [destruct V as (j & Fj & _ & ->); congruence|apply Nn; now exists k0].
+        - right. intros (k0 & [<-|I0] & V); [destruct V as (j & Fj & _); congruence|apply Nn; now exists k0]. }
+      destruct (D (filter (fun k => has_prefix k prefix) bucket)) as [(k & _ & i & F & K & ->)|Nn]; [|tauto].
+      exists i. split; [|split; [exact K|reflexivity]].
+      unfold s3_id_from_name in F. destruct (has_suffix k (ext_of unc)); [|discriminate].
+      destruct (split_slash _) as [|a [|b [|c l]]]; try discriminate.
+      destruct (has_prefix b a); [|discriminate]. eapply unhex_id_wf; eauto.
+  Qed.
+
+  Lemma split_slash_aux_noslash cur b : forallb (fun c => negb (N.eqb c slash)) b = true ->
+    split_slash_aux cur b = [rev cur ++ b].
+  Proof.
+    revert cur. induction b as [|c b IH]; intros cur Hb; cbn [split_slash_aux].
+    - now rewrite app_nil_r.
+    - cbn [forallb] in Hb. apply andb_true_iff in Hb. destruct Hb as [Hc Hb].
+      destruct (N.eqb c slash); [discriminate|]. rewrite IH by exact Hb. cbn [rev]. now rewrite <- app_assoc.
+  Qed.
+
+  Lemma split_slash_two a b :
+    forallb (fun c => negb (N.eqb c slash)) a = true -> forallb (fun c => negb (N.eqb c slash)) b = true ->
+    split_slash (a ++ slash :: b) = [a; b].
+  Proof.
+    unfold split_slash. intros Ha Hb.
+    assert (G : forall cur, split_slash_aux cur (a ++ slash :: b) = [rev cur ++ a; b]).
+    { revert Ha. clear - Hb. induction a as [|c a IH]; intros Ha cur; cbn [app split_slash_aux].
+      - rewrite N.eqb_refl, app_nil_r. now rewrite (split_slash_aux_noslash [] b Hb).
+      - cbn [forallb] in Ha. apply andb_true_iff in Ha. destruct Ha as [Hc Ha].
+        destruct (N.eqb c slash); [discriminate|]. rewrite IH by exact Ha. cbn [rev]. now rewrite <- app_assoc. }
+    rewrite (G []). reflexivity.
+  Qed.
+
+  Lemma lower_hex_noslash s : forallb is_lower_hex s = true -> forallb (fun c => negb (N.eqb c slash)) s = true.
+  Proof.
+    intros F. rewrite forallb_forall in *. intros c I. specialize (F c I).
+    destruct (N.eqb c slash) eqn:E; [|reflexivity]. apply N.eqb_eq in E. subst c. discriminate.
+  Qed.
+
+  Lemma forallb_firstn {A} (f : A -> bool) n l : forallb f l = true -> forallb f (firstn n l) = true.
+  Proof.
+    revert n. induction l as [|x l IH]; intros [|n] F; cbn in *; try reflexivity.
+    apply andb_true_iff in F. destruct F as [-> F]. now rewrite IH.
+  Qed.
+
+  Lemma has_prefix_app a b : has_prefix (a ++ b) a = true.
+  Proof. unfold has_prefix. rewrite firstn_app, firstn_all, Nat.sub_diag. cbn. rewrite app_nil_r. apply bytes_eqb_refl. Qed.
+
+  Lemma trim_prefix_app a b : trim_prefix (a ++ b) a = b.
+  Proof. unfold trim_prefix. rewrite has_prefix_app, skipn_app, skipn_all, Nat.sub_diag. reflexivity. Qed.
+
+  (* the canonical key of an id is accepted and yields the id back *)
+  Lemma s3_id_from_name_canonical i : wf_id i -> s3_id_from_name prefix unc (s3_name prefix unc i) = Some i.
+  Proof.
+    intros W. unfold s3_id_from_name, s3_name.
+    set (sid := hex_id i). set (d4 := firstn 4 sid).
+    replace (has_suffix (prefix ++ d4 ++ slash :: sid ++ ext_of unc) (ext_of unc)) with true.
+    2:{ symmetry. apply has_suffix_spec. exists (prefix ++ d4 ++ slash :: sid).
+        rewrite <- !app_assoc. cbn [app]. reflexivity. }
+    rewrite trim_prefix_app.
+    replace (d4 ++ slash :: sid ++ ext_of unc) with ((d4 ++ slash :: sid) ++ ext_of unc)
+      by (rewrite <- app_assoc; reflexivity).
+    rewrite trim_suffix_app.
+    assert (Hs : forallb (fun c => negb (N.eqb c slash)) sid = true) by (apply lower_hex_noslash, hex_id_lower).
+    rewrite split_slash_two; [|now apply forallb_firstn|exact Hs].
+    replace (has_prefix sid d4) with true.
+    2:{ symmetry. unfold d4. rewrite <- (firstn_skipn 4 sid) at 1. apply has_prefix_app. }
+    now apply unhex_hex_id.
+  Qed.
+
+  (* s3 prune_complete *)
+  Lemma s3_prune_complete bucket i : wf_id i -> keep i = false ->
+    ~ In (s3_name prefix unc i) (s3_prune prefix unc keep bucket).
+  Proof.
+    intros W K I. unfold s3_prune in I. apply s3_prune_loop_spec in I. destruct I as [I N].
+    apply N. exists (s3_name prefix unc i). split.
+    - apply filter_In. split; [exact I|]. unfold s3_name. apply has_prefix_app.
+    - exists i. split; [now apply s3_id_from_name_canonical|]. split; [exact K|reflexivity].
+  Qed.
+End S3Proofs.
+
+(* ---------- SFTP temp names ---------- *)
+
+Lemma last_app_nonnil {A} (a b : list A) d : b <> [] -> last (a ++ b) d = last b d.
+Proof.
+  intros N. induction a as [|x a IH]; [reflexivity|]. cbn [app]. rewrite <- IH.
+  destruct (a ++ b) eqn:E; [apply app_eq_nil in E; destruct E; contradiction|reflexivity].
+Qed.
+
+Definition is_digit (c : byte) : bool := ((48 <=? c) && (c <=? 57))%N.
+
+(* SFTPStoreBase.StoreObject's temp name: the chunk name followed by a decimal number *)
+Lemma sftp_temp_never_accepted unc i digits :
+  digits <> [] -> forallb is_digit digits = true ->
+  base_file_id unc (hex_id i ++ ext_of unc ++ digits) = None.
+Proof.
+  intros Nn Dg. unfold base_file_id. destruct unc.
+  - rewrite unc_ext_empty, has_suffix_nil, trim_suffix_nil. cbn [app].
+    destruct (unhex_id (hex_id i ++ digits)) eqn:U; [|reflexivity]. exfalso.
+    apply unhex_id_some in U. destruct U as [L _]. rewrite app_length, hex_id_length in L.
+    destruct digits; [congruence|cbn in L; lia].
+  - destruct (has_suffix (hex_id i ++ ext_of false ++ digits) (ext_of false)) eqn:S; [exfalso|reflexivity].
+    apply has_suffix_spec in S. destruct S as [x E].
+    assert (L : last (hex_id i ++ ext_of false ++ digits) 0%N = last (x ++ ext_of false) 0%N) by now rewrite E.
+    rewrite app_assoc, !last_app_nonnil in L by (try exact Nn; rewrite comp_ext_literal; discriminate).
+    rewrite comp_ext_literal in L. cbn [last] in L.
+    assert (D : is_digit (last digits 0%N) = true).
+    { clear - Nn Dg. induction digits as [|c r IH]; [congruence|]. cbn [forallb] in Dg.
+      apply andb_true_iff in Dg. destruct Dg as [Dc Dr]. destruct r; [exact Dc|]. apply IH; [discriminate|exact Dr]. }
+    rewrite L in D. discriminate.
+Qed.
